@@ -5,7 +5,7 @@ FILES = gencheck.GEN_FILES
 RULE = genprops.RULES["C03"]
 ASSUMPTIONS = ["values are typed-or-None Python values of the declared field types", "specifications are NonDegenerate (DESIGN §3 C02)"]
 run = genprops.run_c03
-replay = genprops.replay_generic
+replay = genprops.replay_shown_then_rerun(genprops.run_c03)
 
 
 def oracle_sweep(ctx):
